@@ -122,7 +122,8 @@ theorem stepReqs_sound {P : Params κ} {cfg : Cfg} (hm : cfg.minimal = false) {d
             obtain ⟨ek, er⟩ := completeReqs_setResult cfg t _ ovs k r hmem
             subst ek; subst er
             have hb : buildTarget P cfg defs fuel t s = (execTarget P cfg defs t (P.K (keyState t s.fs ohs)) (s.cache.taint t.label) s).1 := by
-              simp [buildTarget, hd', ho, hh, hm, hok]
+              rw [buildTarget_all_eq P cfg defs fuel t s hm]
+              simp [buildTargetNoPre, hd', ho, hh, hm, hok]
             have he : execTarget P cfg defs t (P.K (keyState t s.fs ohs)) (s.cache.taint t.label) s =
                 ((execTarget P cfg defs t (P.K (keyState t s.fs ohs)) (s.cache.taint t.label) s).1, true) :=
               Prod.ext rfl (by simpa using hok)
